@@ -10,3 +10,7 @@ import Ypv.Props.C11
 #print axioms Ypv.MergeAt.mergeat_unmatched_is_error
 #print axioms Ypv.MergeAt.mergeat_uncreatable_is_error
 #print axioms Ypv.MergeAt.mergeat_null_rhs
+#print axioms Ypv.MergeAt.mergeat_spine_kept
+#print axioms Ypv.MergeAt.mergeat_missing_created_scalar
+#print axioms Ypv.MergeAt.mergeat_creation_is_c09
+#print axioms Ypv.MergeAt.mergeat_rules_rebased
